@@ -45,13 +45,13 @@ def gen_pl(rng):
     nf = rng.choice([1, 1, 2, 3, 4, 6])
     names = rng.sample(FNAMES, nf)
     return {'kind': 'pl', 'fields': [[n, rng.choice(SCALAR)] for n in names], 'len': rng.choice([0, 1, 2, 5, 17]), 'seed': rng.randrange(10 ** 6),
-            'name': rng.choice(['pl', 'my points', 'liste'])}
+            'name': rng.choice(['pl', 'my points', 'liste']), 'zeros': rng.random() < 0.15}
 
 
 def gen_pla(rng):
     structured = rng.random() < 0.8
     nf = rng.choice([1, 2, 3])
-    dt = [[n, rng.choice(SCALAR[:14])] for n in rng.sample(FNAMES, nf)] if structured else rng.choice(['float64', 'int32', 'uint8', 'complex64'])
+    dt = [[n, rng.choice(SCALAR[:14])] for n in rng.sample(FNAMES, nf)] if structured else rng.choice(['float64', 'int32', 'uint8', 'complex64', 'float64', 'int32', '>f4', '>i2'])
     shape = rng.choice([[1, 1], [2, 3], [0, 3], [3, 0], [1, 4], [3, 2], [0, 0]])
     mode = rng.choice(['ragged', 'ragged', 'all_empty', 'some_empty', 'one'])
     cells = []
@@ -63,7 +63,8 @@ def gen_pla(rng):
                 n = 0
             row.append(n)
         cells.append(row)
-    return {'kind': 'pla', 'dtype': dt, 'shape': shape, 'cells': cells, 'seed': rng.randrange(10 ** 6), 'name': rng.choice(['pla', 'peaks'])}
+    return {'kind': 'pla', 'dtype': dt, 'shape': shape, 'cells': cells, 'seed': rng.randrange(10 ** 6), 'name': rng.choice(['pla', 'peaks']),
+            'zeros': rng.random() < 0.3}
 
 
 def mk_struct(fields, n, seed):
@@ -84,6 +85,8 @@ def run_case(c, scratch):
     try:
         if c['kind'] == 'pl':
             data = mk_struct(c['fields'], c['len'], c['seed'])
+            if c.get('zeros'):
+                data = np.zeros(c['len'], dtype=data.dtype)
             obj = emdfile.PointList(data=data, name=c['name'])
             out['orig'] = {'len': len(obj), 'fields': [[f, str(data.dtype[f]), tok_of(data[f])] for f in data.dtype.names]}
         else:
@@ -95,6 +98,8 @@ def run_case(c, scratch):
                 for j in range(c['shape'][1]):
                     n = c['cells'][i][j]
                     d = mk_struct(c['dtype'], n, c['seed'] + 7 * i + j) if isinstance(c['dtype'], list) else col(c['dtype'], n, c['seed'] + 7 * i + j)
+                    if c.get('zeros') and (i + j + c['seed']) % 2 == 0:
+                        d = np.zeros(n, dtype=d.dtype)       # points whose every field is zero are points too
                     if n:
                         obj[i, j].add(d)
                     row.append([n, tok_of(obj[i, j].data) if n else 0])
@@ -179,6 +184,10 @@ def coqpla(o, I):
     return f"(PLA ({o['shape'][0]}, {o['shape'][1]}) {I.s(o['dtype'])} {cells})"
 
 
+def plain_nonnative(c):
+    return c['kind'] == 'pla' and not isinstance(c['dtype'], list) and not np.dtype(c['dtype']).isnative
+
+
 def emit(cases, results, shard=400):
     shards = []
     for k in range(0, len(cases), shard):
@@ -199,6 +208,8 @@ def emit(cases, results, shard=400):
                     b = 'None' if bb is None else f'(Some {bb})'
                 terms.append(f'PCPl {p} {f} {b}')
             else:
+                if plain_nonnative(c):
+                    continue      # h5py's reading of non-native plain numeric vlen data is outside the model (known finding)
                 b = 'None' if 'back' not in r else f"(Some {coqpla(r['back'], I)})"
                 terms.append(f"PCPla {coqpla(r['orig'], I)} {b}")
             idx.append(i)
